@@ -275,13 +275,20 @@ func parseSig(t string) (*Contract, error) {
 		if end < 0 {
 			return nil, fmt.Errorf("bad receiver in %q", t)
 		}
-		ps, err := parseParams(rest[1:end])
-		if err != nil || len(ps) != 1 {
-			return nil, fmt.Errorf("bad receiver in %q", t)
+		rtxt := strings.TrimSpace(rest[1:end])
+		if !strings.Contains(rtxt, " ") {
+			// "(*T).name$1": a closure of a method - the key carries the type, there is no receiver parameter
+			recvType = rtxt
+			rest = strings.TrimPrefix(strings.TrimSpace(rest[end+1:]), ".")
+		} else {
+			ps, err := parseParams(rtxt)
+			if err != nil || len(ps) != 1 {
+				return nil, fmt.Errorf("bad receiver in %q", t)
+			}
+			c.Recv = &ps[0]
+			recvType = ps[0].Type
+			rest = strings.TrimSpace(rest[end+1:])
 		}
-		c.Recv = &ps[0]
-		recvType = ps[0].Type
-		rest = strings.TrimSpace(rest[end+1:])
 	}
 	op := strings.Index(rest, "(")
 	if op < 0 {
